@@ -14,7 +14,7 @@ RULE = ('sequences of complete file sections (kind x ending: modified/added/dele
 ASSUMPTIONS = ['each section is a complete file diff as git prints it (starts with its own "diff --git" line)']
 CHUNK = 4
 
-KINDS = gen.SECTION_KINDS + ['submodule_short', 'submodule_log', 'binary_noindex', 'combined_binary', 'combined', 'combined_conflict']
+KINDS = gen.SECTION_KINDS + ['submodule_short', 'submodule_log', 'binary_noindex', 'combined_binary', 'combined', 'combined_conflict', 'submodule_deleted']
 ENDINGS = [' ', '-', '+', '\\']
 
 MODES = {
@@ -29,6 +29,8 @@ MODES = {
     'markers-buf0': ['--keep-plus-minus-markers', '--line-buffer-size', '0'],
     'sbs-narrow-wrap': ['--side-by-side', '--width', '41', '--wrap-max-lines', '3', '--line-numbers'],
     'raw': ['--raw'],
+    'raw-headers': ['--file-style', 'raw', '--file-decoration-style', 'none', '--hunk-header-style', 'raw', '--hunk-header-decoration-style', 'none',
+                    '--commit-style', 'raw'],
     'themes': ['--syntax-theme', 'GitHub', '--light', '--hunk-header-style', 'file line-number syntax'],
     # several built-in features enabled by flags in gitconfig: their relative priority must not vary between runs
     'gitconfig-flags': 'GITCONFIG',
@@ -60,6 +62,10 @@ def make_section_lines(rng, shape, idx, same=None):
         name = 'sub%d' % idx
         return ['diff --git a/%s b/%s' % (name, name), 'index 1111111..2222222 160000', '--- a/' + name, '+++ b/' + name,
                 '@@ -1 +1 @@', '-Subproject commit ' + 'a' * 40, '+Subproject commit ' + 'b' * 40]
+    if kind == 'submodule_deleted':
+        name = 'subdel%d' % idx
+        return ['diff --git a/%s b/%s' % (name, name), 'deleted file mode 160000', 'index 1234567..0000000', '--- a/' + name, '+++ /dev/null',
+                '@@ -1 +0,0 @@', '-Subproject commit ' + 'c' * 40]
     if kind == 'submodule_log':
         name = 'sublog%d' % idx
         return ['Submodule %s 1234567..89abcde:' % name, '  > commit message one', '  > commit message two']
